@@ -57,6 +57,13 @@ pub struct CM {
     pub e: Entity,
 }
 
+/// Client event with a variable-length field, ordered.
+#[derive(Event, Serialize, Deserialize, Clone, Debug)]
+pub struct CS {
+    pub seq: Seq,
+    pub text: String,
+}
+
 #[derive(Clone, Copy, Debug, PartialEq, Eq, Hash, PartialOrd, Ord, Serialize)]
 pub enum SK {
     E1,
@@ -90,6 +97,7 @@ pub enum CK {
     C3,
     CM,
     CT,
+    CS,
 }
 impl CK {
     pub fn tag(self) -> u8 {
@@ -99,9 +107,9 @@ impl CK {
         !matches!(self, CK::C3)
     }
     pub fn ordered(self) -> bool {
-        matches!(self, CK::C1 | CK::CM | CK::CT)
+        matches!(self, CK::C1 | CK::CM | CK::CT | CK::CS)
     }
-    pub const ALL: [CK; 5] = [CK::C1, CK::C2, CK::C3, CK::CM, CK::CT];
+    pub const ALL: [CK; 6] = [CK::C1, CK::C2, CK::C3, CK::CM, CK::CT, CK::CS];
 }
 
 /// Channel ids of the vocabulary, recorded at registration.
@@ -186,6 +194,12 @@ client_reader!(read_c1, C1);
 client_reader!(read_c2, C2);
 client_reader!(read_c3, C3);
 
+fn read_cs(mut r: EventReader<FromClient<CS>>, tick: Option<Res<ServerUpdateTick>>, mut o: ResMut<Observed>) {
+    for e in r.read() {
+        note_plain(&mut o, &e.event.seq, &tick, Some(e.client));
+    }
+}
+
 fn note_entity(
     o: &mut Observed,
     s: &Seq,
@@ -265,6 +279,8 @@ pub fn register(app: &mut App) {
     app.add_mapped_client_event::<CM>(Channel::Ordered);
     ch.client.insert(CK::CT, cc(app));
     app.add_client_trigger::<CT>(Channel::Ordered);
+    ch.client.insert(CK::CS, cc(app));
+    app.add_client_event::<CS>(Channel::Ordered);
 
     app.insert_resource(ch)
         .init_resource::<Observed>()
@@ -273,7 +289,7 @@ pub fn register(app: &mut App) {
     app.add_systems(
         Update,
         (
-            read_e1, read_e2, read_e3, read_ei, read_em, read_c1, read_c2, read_c3, read_cm,
+            read_e1, read_e2, read_e3, read_ei, read_em, read_c1, read_c2, read_c3, read_cm, read_cs,
         ),
     );
     app.add_observer(
@@ -352,6 +368,9 @@ pub enum EvOp {
     EmitS(SK, Mode, Option<u8>),
     /// Client `c` emits an event, optionally referencing an entity slot (mapped to the client's entity).
     EmitC(u8, CK, Option<u8>),
+    /// Client `c` first emits a mapped event referencing an entity the server cannot know (refused
+    /// locally), then - in the same frame - the given event.
+    EmitCAfterBad(u8, CK, Option<u8>),
     Connect(u8),
     Disconnect(u8),
     /// Custom authorization: insert `AuthorizedClient` on the client's connection entity.
@@ -359,6 +378,8 @@ pub enum EvOp {
     /// The server stops (all clients are dropped) / starts again.
     StopServer,
     StartServer,
+    /// The server starts and accepts client `c` before its first frame.
+    StartServerWith(u8),
     /// The connection of `c` drops after this round's client messages were handed to the server
     /// but before the server's next frame.
     LateDisconnect(u8),
@@ -387,11 +408,16 @@ impl EvOp {
                 "c{c} emits {k:?}{}",
                 r.map(|s| format!(" ref e{}", s + 1)).unwrap_or_default()
             ),
+            EvOp::EmitCAfterBad(c, k, r) => format!(
+                "c{c} emits CM with an unmappable reference and then {k:?}{}",
+                r.map(|s| format!(" ref e{}", s + 1)).unwrap_or_default()
+            ),
             EvOp::Connect(c) => format!("connect c{c}"),
             EvOp::Disconnect(c) => format!("disconnect c{c}"),
             EvOp::Authorize(c) => format!("authorize c{c}"),
             EvOp::StopServer => "stop server".into(),
             EvOp::StartServer => "start server".into(),
+            EvOp::StartServerWith(c) => format!("start server and connect c{c} in the same frame"),
             EvOp::LateDisconnect(c) => format!("disconnect c{c} after its messages reached the server"),
             EvOp::PreMap(c) => format!("insert ClientEntityMap on c{c} before authorization"),
             EvOp::ReMark(s) => format!("re-insert Replicated on e{}", s + 1),
@@ -541,7 +567,7 @@ impl EvCell {
                 };
                 target_ok && r.is_none_or(|s| x.sim.marked(s))
             }
-            EvOp::EmitC(c, _, r) => {
+            EvOp::EmitC(c, _, r) | EvOp::EmitCAfterBad(c, _, r) => {
                 Self::connected(x, c as usize)
                     && r.is_none_or(|s| {
                         x.sim.alive(s).is_some_and(|e| {
@@ -557,6 +583,7 @@ impl EvCell {
             EvOp::Connect(c) => !Self::connected(x, c as usize) && x.sim.server_running(),
             EvOp::StopServer => x.sim.server_running(),
             EvOp::StartServer => !x.sim.server_running(),
+            EvOp::StartServerWith(c) => !x.sim.server_running() && !Self::connected(x, c as usize),
             EvOp::LateDisconnect(c) => Self::connected(x, c as usize),
             EvOp::PreMap(c) => {
                 self.cfg.auth == Auth::Custom
@@ -605,6 +632,10 @@ impl EvCell {
             }
             EvOp::StopServer => x.sim.stop_server(),
             EvOp::StartServer => x.sim.start_server(),
+            EvOp::StartServerWith(c) => {
+                x.sim.start_server();
+                x.sim.connect(c as usize);
+            }
             EvOp::LateDisconnect(c) => x.late_disconnect = Some(c as usize),
             EvOp::PreMap(c) => {
                 let conn = x.sim.clients[c as usize].conn.unwrap();
@@ -688,8 +719,14 @@ impl EvCell {
                     emit_frame: x.sim.server_frames,
                 });
             }
-            EvOp::EmitC(c, kind, r) => {
+            EvOp::EmitC(c, kind, r) | EvOp::EmitCAfterBad(c, kind, r) => {
                 let c = c as usize;
+                if matches!(op, EvOp::EmitCAfterBad(..)) {
+                    // a purely local entity: the event must be refused, and only this event
+                    let w = x.sim.clients[c].app.world_mut();
+                    let local = w.spawn_empty().id();
+                    w.send_event(CM { seq: seq(CK::CM.tag(), 0), e: local });
+                }
                 let n = x.next_n;
                 x.next_n += 1;
                 x.events_emitted += 1;
@@ -719,6 +756,9 @@ impl EvCell {
                     }
                     CK::CM => {
                         w.send_event(CM { seq: s, e: client_entity.expect("CM needs a reference") });
+                    }
+                    CK::CS => {
+                        w.send_event(CS { seq: s, text: "variable".into() });
                     }
                     CK::CT => match client_entity {
                         Some(e) => w.client_trigger_targets(CT(s), e),
